@@ -679,7 +679,24 @@ fn generate_moves_for_piece(
                 new_moves.push(new_board);
             }
         } else {
-            new_moves.push(new_board);
+            // captures only: a capture is never a double pawn move, but it still ends the
+            // previous one and a pawn capturing onto the last rank still promotes
+            new_board.unset_pawn_double_move(zobrist_hasher);
+            if kind == Pawn
+                && ((mov.0 == BOARD_START && color == White)
+                    || (mov.0 == BOARD_END - 1 && color == Black))
+            {
+                promote_pawn(
+                    &new_board,
+                    color,
+                    square_cords,
+                    mov,
+                    new_moves,
+                    zobrist_hasher,
+                );
+            } else {
+                new_moves.push(new_board);
+            }
         }
     }
 
